@@ -83,5 +83,22 @@ _STALE_BATCH = {
     "params": {"kinds": {}},
 }
 
+# a context whose resume() raises when the scheduler resumes the suspended task: the task fails, and afterwards the
+# active task must be what it was (None at top level; the parent inside a parent that catches the error)
+_RESUME_FAILS = {
+    "roots": [
+        [{"op": "with", "c": {"async": [1, {"resume": [1, 31]}]}, "body": [
+            {"op": "yield", "x": "x1", "s": {"new": {"item": [0, 1, {"set": 1}]}}}]}, {"op": "return", "e": 0}],
+        [{"op": "probe"}, {"op": "try", "body": [{"op": "yield", "x": "y1", "s": {"new": {"task": [
+            {"op": "with", "c": {"async": [2, {"resume": [1, 32]}]}, "body": [
+                {"op": "yield", "x": "y2", "s": {"new": {"item": [0, 2, {"set": 2}]}}}]}, {"op": "return", "e": 0}]}}}],
+          "x": "e1", "handler": [{"op": "probe"}]},
+         {"op": "probe"}, {"op": "return", "e": 1}]],
+    "params": {"kinds": {}},
+}
+_EXTRA = [(1, dict(_base, name="ctx-faults", p_ctx_fault=0.8, p_with=0.45, p_item=0.6, p_probe=0.25, p_nonasync=0.1))]
+
 mach.install(globals(), "C08", ("EvProbe", "EvSched"), ("C08:",), PROFILES, n_quick=300, n_thorough=25000,
-             nontrivial=_nontrivial, level="proof", corpus=[_GUARD_BATCH, _GUARD_NESTED, _GUARD_CAUGHT, _STALE_BATCH])
+             nontrivial=_nontrivial, level="proof",
+             corpus=[_GUARD_BATCH, _GUARD_NESTED, _GUARD_CAUGHT, _STALE_BATCH, _RESUME_FAILS],
+             extra_gen=mach.extra_profiles(_EXTRA, 40, 3000))
